@@ -153,8 +153,9 @@ theorem findEarlierGo_specT : (fs : List Frag) → ∀ (bs : List PBox) (i : Nat
               obtain ⟨rfl, rfl⟩ := h
               obtain ⟨hshape, hidx', hsand, hp⟩ := findEarlierFrag_specT x b sub fl hgb hx x' r1 hfe
               refine ⟨0, some r1, by rw [hxi]; rfl, by simp,
-                partFromT_single x' b _ i sub hshape (by rw [hidx', hxi]), ?_, ?_⟩
-              · simp only [fragLinesList, linesFromKids, freeFromKids, List.append_nil]
+                partFromT_single x'.cutEnd b _ i sub (partT_cutEnd _ _ _ _ hshape) (by rw [idx_cutEnd, hidx', hxi]),
+                ?_, ?_⟩
+              · simp only [fragLinesList, linesFromKids, freeFromKids, List.append_nil, fragLines_cutEnd]
                 exact sandT_frame fl _ _ _ _ _ _ _ hsand
               · simpa only [posKids] using hp
             · simp at h
